@@ -568,3 +568,13 @@ package list
 //@   ensures [one_record_per_stored_record] result0 && result1 == nil && len(records) == old(len(records)) + 1
 //@   ensures [stored_id_and_bytes] records[len(records) - 1] != nil && records[len(records) - 1].Id == record.Id && len(records[len(records) - 1].Payload) == len(record.RawRecord) && (forall k int :: 0 <= k && k < len(record.RawRecord) ==> records[len(records) - 1].Payload[k] == record.RawRecord[k])
 //@   ensures [bytes_are_a_copy] len(record.RawRecord) == 0 || fresh(records[len(records) - 1].Payload)
+
+// ---------------------------------------------------------------------------------------------
+// C02: order of two ACL records. IsAfter(first, second) answers from the positions of both records
+// in the chain; unknown ids are an error, never "true".
+//@ func (*aclList).IsAfter
+//@   modifies nothing
+//@   requires a != nil
+//@   ensures [both_known_or_error] result1 == nil <==> (first in a.indexes && second in a.indexes)
+//@   ensures [error_is_false]      result1 != nil ==> !result0
+//@   ensures [position_order]      result1 == nil ==> (result0 <==> a.indexes[first] >= a.indexes[second])
